@@ -28,13 +28,17 @@ CONSTANTS N,      \* number of sources
                      \*       and the handler closes the list (no creation afterwards)
           EPIPE,     \* TRUE: a write to standard output may fail (`s4 ... | head`): the print path then
                      \*       disconnects that source's channel and carries on
+          CHECKLOCKED, \* TRUE: the "list closed?" test of decompress_to_ntf is made while the NAMED_TEMP_FILES lock is held;
+                     \*       FALSE: it is made before the lock is taken (check-then-act)
           SWEEP      \* TRUE: after processing_loop has returned, main closes NAMED_TEMP_FILES and removes every
                      \*       file still listed before the process exits (workers are not joined)
 
 W == 1..N
+\* where a temp-file worker starts
+FirstPc == IF REGATOMIC /\ ~CHECKLOCKED THEN "chk" ELSE "create"
 
 VARIABLES dts, shape,       \* ground truth (chosen in Init, never changes)
-          wpc,              \* worker pc: "create","register","run","ret"
+          wpc,              \* worker pc: "chk" (only when ~CHECKLOCKED),"create","register","run","ret"
           wi,               \* number of script positions handed to send()
           ri,               \* number of datums the coordinator dequeued
           closed,           \* sender dropped (thread returned)
@@ -69,7 +73,7 @@ FiOk(w)      == shape[w] # "fierr"
 SumOk(w)     == shape[w] = "ok"
 
 InitRest ==
-  /\ wpc = [w \in W |-> IF w \in TMPW THEN "create" ELSE "run"]
+  /\ wpc = [w \in W |-> IF w \in TMPW THEN FirstPc ELSE "run"]
   /\ wi = [w \in W |-> 0] /\ ri = [w \in W |-> 0]
   /\ closed = [w \in W |-> FALSE] /\ rdrop = [w \in W |-> FALSE]
   /\ live = W
@@ -97,10 +101,22 @@ HandlerHoldsNtf == hpc \in {"remove", "flag"}
 \* a worker holds it between create and register when REGATOMIC
 WorkerHoldsNtf == REGATOMIC /\ \E v \in W : wpc[v] = "register"
 
+\* ~CHECKLOCKED: the "list closed?" test, made without the lock; the worker then queues for the lock
+WCheck(w) ==
+  /\ Alive /\ wpc[w] = "chk"
+  /\ IF ntfClosed
+       THEN /\ wpc' = [wpc EXCEPT ![w] = "run"]
+            /\ shape' = [shape EXCEPT ![w] = "fierr"]
+            /\ rdrop' = [rdrop EXCEPT ![w] = TRUE]
+       ELSE /\ wpc' = [wpc EXCEPT ![w] = "create"]
+            /\ UNCHANGED <<shape, rdrop>>
+  /\ UNCHANGED <<dts, wi, ri, closed, live, pending, fi, fic, np, cpc, got,
+                 recvErr, errs, ret, disk, listed, hpc, exitEarly, ntfClosed, exited>>
+
 \* decompress_to_ntf: tempfile created on disk (REGATOMIC: under the lock, unless the list is closed)
 WCreate(w) ==
   /\ Alive /\ wpc[w] = "create"
-  /\ REGATOMIC => (~HandlerHoldsNtf /\ ~WorkerHoldsNtf /\ ~ntfClosed)
+  /\ REGATOMIC => (~HandlerHoldsNtf /\ ~WorkerHoldsNtf /\ (CHECKLOCKED => ~ntfClosed))
   /\ disk' = disk \cup {w}
   /\ wpc' = [wpc EXCEPT ![w] = "register"]
   /\ UNCHANGED <<dts, shape, wi, ri, closed, rdrop, live, pending, fi, fic, np, cpc, got,
@@ -108,7 +124,7 @@ WCreate(w) ==
 
 \* REGATOMIC: after the handler's pass no file is created; the worker reports an open error
 WCreateRefused(w) ==
-  /\ Alive /\ wpc[w] = "create" /\ REGATOMIC /\ ntfClosed /\ ~HandlerHoldsNtf /\ ~WorkerHoldsNtf
+  /\ Alive /\ wpc[w] = "create" /\ REGATOMIC /\ CHECKLOCKED /\ ntfClosed /\ ~HandlerHoldsNtf /\ ~WorkerHoldsNtf
   /\ wpc' = [wpc EXCEPT ![w] = "run"]
   /\ shape' = [shape EXCEPT ![w] = "fierr"]
   /\ rdrop' = [rdrop EXCEPT ![w] = TRUE]
@@ -317,7 +333,7 @@ HFlag ==
                  recvErr, errs, ret, disk, listed, ntfClosed, exited>>
 
 -----------------------------------------------------------------------------
-Worker(w) == WCreate(w) \/ WCreateRefused(w) \/ WRegister(w) \/ WDrop(w) \/ WSend(w) \/ WReturn(w)
+Worker(w) == WCheck(w) \/ WCreate(w) \/ WCreateRefused(w) \/ WRegister(w) \/ WDrop(w) \/ WSend(w) \/ WReturn(w)
 Coord == CExitEarly \/ CEnterSel \/ (\E w \in W : CDequeue(w) \/ CDisc(w)) \/ CNone
          \/ CProcess \/ CPrint \/ CPrintError \/ CAfter \/ CSweep \/ ProcExit
 Handler == HLock \/ HClear \/ HNtfLock \/ HRemove \/ HFlag
